@@ -42,7 +42,30 @@ def id_scenarios(rng, n):
             sc['ops'] += [{'op': 'set', 'what': what, 'value': not cur[what]}, extra]
             for op in sc['ops']:
                 op.pop('worker_lifespan', None)
-        if rng.random() < .12:
+        if rng.random() < .15:
+            # workers that are alive although keep_alive is off (started by apply submissions, or kept alive and then keep_alive
+            # switched off), then a setter, then a map-family call: the call is run by workers started after the change
+            cur = {k: bool(sc['pool'].get(k)) for k in ('pass_worker_id', 'shared_objects', 'use_worker_state')}
+            what = rng.choice(sorted(cur))
+            call = gen.gen_success_scenario(rng, n_ops=1)['ops'][0]
+            call['init'] = call['exit'] = True
+            call.pop('worker_lifespan', None)
+            if rng.random() < .5:
+                sc['pool'].pop('keep_alive', None)
+                sc['pool'].pop('order_tasks', None)
+                first = gen.gen_apply_op(rng, sc['pool']['n_jobs'], with_failures=False)
+                first.pop('init', None)
+                sc['ops'] = [first, {'op': 'set', 'what': what, 'value': not cur[what]}, call]
+            else:
+                sc['pool']['keep_alive'] = True
+                first = gen.gen_success_scenario(rng, n_ops=1)['ops'][0]
+                first['init'] = first['exit'] = True
+                first.pop('worker_lifespan', None)
+                sc['ops'] = [first, {'op': 'set', 'what': 'keep_alive', 'value': False}, {'op': 'set', 'what': what, 'value': not cur[what]}, call]
+            sc['same_func'] = rng.random() < .5
+            sc['relax_shape'] = True
+            sc['all_valid'] = True
+        elif rng.random() < .12:
             # threads cannot be killed: a call fails while a sibling task still runs for seconds; the pool is used again at once.
             # The old worker thread must be gone before an instance with the same id starts
             sc['pool']['start_method'] = 'threading'
